@@ -147,7 +147,8 @@ def run(ctx):
     res.assumptions = ["client-side URL normalisation by real browsers is not modelled", "names containing '..', './' etc. are C12's subject and not in this tree"]
     parse_lines, parse_checks = [], []
     quote_lines, quote_checks = [], []
-    for listname, ctl in (("shipped", False), ("shipped", True), ("full", False), ("rootmap", False), ("warm", False), ("wapdir", False)):
+    for listname, ctl in (("shipped", False), ("shipped", True), ("full", False), ("rootmap", False), ("warm", False), ("wapdir", False),
+                         ("waptop:/wap/", False), ("waptop:/m", False), ("waptop:/a/b", False)):
         tree = pyg.Tree()
         try:
             build_tree(tree, listname == "full", ctl)
@@ -167,6 +168,9 @@ def run(ctx):
                 tree.write("wap/models/nokia.txt", b"3310\n")
                 tree.write("wap/wap/deeper.txt", b"deeper\n")
                 tree.write("wapiti/x.txt", b"x\n")
+            if listname.startswith("waptop:"):
+                # other spellings of the configured WAP prefix (a trailing slash, one letter, two levels): links carry it, the parser strips it
+                kw["protocols.wap.WAPProtocol|waptop"] = listname.split(":", 1)[1]
             if listname == "warm":
                 # every real directory has been requested directly before (caches written, Maildir sub-directories listed as plain directories)
                 kw = {}
@@ -186,9 +190,11 @@ def run(ctx):
                     continue
                 if listname == "wapdir" and proto not in ("gopher", "wap", "gemini"):
                     continue
+                if listname.startswith("waptop:") and proto != "wap":
+                    continue
                 if ctl != (proto not in ("gopher", "gopherp")) and listname == "shipped":
                     continue
-                start = "/" if proto != "wap" else waptop + "/"
+                start = "/" if proto != "wap" else (waptop if waptop.endswith("/") else waptop + "/")
                 seen = set()
                 queue = [("menu", start, None)]
                 steps = 0
@@ -244,7 +250,8 @@ def run(ctx):
                         else:
                             rl = [x.decode("utf-8", "surrogateescape") for x in readlines(rest)]
                         parse_lines.append("parse\t%s\t%s\t%s\t%s\tT" % (short, "T" if tls else "F",
-                                           enc_str(line.decode("utf-8", "surrogateescape")), enc_list(rl)))
+                                           enc_str(line.decode("utf-8", "surrogateescape")), enc_list(rl))
+                                           + ("\t" + enc_str(waptop) if listname.startswith("waptop:") else ""))
                         parse_checks.append((inp, r.selector))
                     if kind == "menu" and not is_menu(proto, r.out):
                         res.violation(f"C05:wrong-kind:{proto}", "a link advertised as a menu is answered with a document", inp,
